@@ -1,6 +1,7 @@
 //! Counting global allocator of the harness binary: records the largest
 //! single allocation request and (in child processes) refuses requests above
-//! a cap after reporting them on stdout ("A <bytes>").
+//! a cap: the request is reported on stdout ("A <bytes>") and the child exits
+//! with code 86 (where the real binary would abort or hold that much memory).
 
 use std::alloc::{GlobalAlloc, Layout, System};
 use std::sync::atomic::{AtomicUsize, Ordering::Relaxed};
@@ -27,7 +28,12 @@ fn report_refused(size: usize) {
     i -= 1; buf[i] = b' ';
     i -= 1; buf[i] = b'A';
     i -= 1; buf[i] = b'\n';
-    unsafe { libc::write(1, buf[i..].as_ptr() as *const libc::c_void, buf.len() - i); }
+    unsafe {
+        libc::write(1, buf[i..].as_ptr() as *const libc::c_void, buf.len() - i);
+        // Returning null would end in handle_alloc_error -> abort(); leave at once instead
+        // (exit code 86 = "allocation refused", the parent reports it with the size above).
+        libc::_exit(86);
+    }
 }
 
 #[inline]
